@@ -32,7 +32,11 @@ func NewRegexpMatcher(include, exclude []*regexp.Regexp) (*RegexpMatcher, error)
 			if i > 0 {
 				regex.WriteString("|")
 			}
+			// Each rule is wrapped in a non-capturing group so that its inline flags
+			// (e.g. (?i)) and alternations do not leak into the other rules.
+			regex.WriteString("(?:")
 			regex.WriteString(rules[i].String())
+			regex.WriteString(")")
 		}
 		if s := regex.String(); s != "" {
 			return regexp.MustCompile(s)
